@@ -46,7 +46,7 @@ CallRec(o) ==
     [] o.kind = "ds" -> [kind |-> "ds", hash |-> o.hash, key |-> o.key, a |-> o.a, mode |-> o.mode,
                          gen |-> o.gen, val |-> o.val]
     [] o.kind = "lists" -> [kind |-> "lists", hash |-> o.hash, status |-> o.status]
-    [] o.kind = "wait" -> [kind |-> "wait", hash |-> o.hash, part |-> o.part, timeout |-> o.timeout]
+    [] o.kind = "wait" -> [kind |-> "wait", hash |-> o.hash, part |-> o.part, timeout |-> o.timeout, at |-> o.at]
     [] o.kind = "pay" -> [kind |-> "pay", hash |-> o.hash, inv |-> o.inv, amount |-> o.amount,
                           maxfee |-> o.maxfee, maxdelay |-> o.maxdelay,
                           invamt |-> IF o.inv >= 1 /\ o.inv <= Len(runinfo.invs) THEN runinfo.invs[o.inv].amt ELSE 0,
